@@ -20,9 +20,9 @@ def classify(req, obs, rule):
 
 PROP = {
     "id": "C05",
-    "lean_targets": ["WmModel.Props.C05"],
+    "lean_targets": ["WmModel.Props.C05Reg", "WmModel.Props.C05"],
     "audit_module": "Audit.C05",
-    "theorems": [
+    "theorems": ["Wm.GcReg.blocking_publish_waits", "Wm.GcReg.blocking_send_then_wait", "Wm.GcReg.blocking_deadlock_witness", "Wm.GcReg.blocking_without_pending_writer_returns", "Wm.GcReg.writer_unique", 
         "Wm.GcSub.one_unsettled_inv", "Wm.GcSub.unsettled_is_owned", "Wm.GcSub.no_send_while_unsettled",
         "Wm.GcSub.never_panics", "Wm.GcSub.close_flags_consistent", "Wm.GcSub.holder_can_leave_when_closing",
     ],
@@ -48,8 +48,9 @@ PROP = {
         "Go race detector",
     ],
     "assumptions": [
-        "the blocking-publish clauses (returns only after the acks; publisher order; returns at all) are decided by the monitors on recorded "
-        "traces, not by a theorem: the registry-level model M_topic carries the C11 theorem only",
+        "the registry model M_reg (lean/WmModel/GcReg.lean: RWMutex with writer announcement, topic mutexes, closedLock, WaitGroup, dispatchers) "
+        "carries blocking_publish_waits and the D11 witness; it is tied to the code by the function skeletons only (no trace conformance yet); "
+        "publisher order and 'returns at all' are decided by the monitors on recorded traces",
         "known finding D11 (nested publish + pending writer deadlocks a blocking Publish) is recorded, see known-findings.json",
     ],
     "level_text": "Proof (Lean 4) that in every reachable state of the subscription model - any buffer size, any number of senders, nacks, cancel "
